@@ -45,8 +45,10 @@ def gen_actions(rng, allow_raise=True):
             acts.append(('print', args, sep, end))
         elif k < 0.55:
             acts.append(('print-num', rng.choice([0, 7, -3, 2.5, True, None, [1, 'a'], {'k': 1}, (1,), 1e100])))
-        elif k < 0.7:
+        elif k < 0.64:
             acts.append(('write', rng.choice(TEXTS)))
+        elif k < 0.7:
+            acts.append(('writelines', [rng.choice(TEXTS) for _ in range(rng.randint(0, 3))]))
         elif k < 0.92:
             acts.append(('input', rng.choice(PROMPTS), rng.random() < 0.7))
         else:
@@ -72,6 +74,9 @@ def actions_to_code(acts, ind=''):
         elif a[0] == 'write':
             lines.append('import sys')
             lines.append('sys.stdout.write(%r)' % a[1])
+        elif a[0] == 'writelines':
+            lines.append('import sys')
+            lines.append('sys.stdout.writelines(%r)' % (list(a[1]),))
         elif a[0] == 'print-file-stdout':
             lines.append('import sys')
             lines.append('print(%r, file=sys.stdout)' % a[1])
@@ -101,6 +106,8 @@ def simulate(acts, queue):
             out.append(str(a[1]) + '\n')
         elif a[0] == 'write':
             out.append(a[1])
+        elif a[0] == 'writelines':
+            out.append(''.join(a[1]))
         elif a[0] == 'print-file-stdout':
             out.append(a[1] + '\n')
         elif a[0] == 'input':
@@ -205,7 +212,7 @@ def gen_history(rng):
             ops.append(('call-inputs', rng.randrange(6), [rng.choice(INPUT_VALUES) for _ in range(rng.randint(0, 2))]))
         else:
             ops.append(('run-main-again', None))
-    return {'funcs': funcs, 'main': main, 'ops': ops}
+    return {'funcs': funcs, 'main': main, 'ops': ops, 'echo_to_console': rng.random() < 0.15}
 
 
 def student_file(h):
@@ -235,6 +242,11 @@ def check_history(ctx, h):
     clear_report()
     contextualize_report(student_file({'funcs': funcs, 'main': main}))
     sandbox = sbx.get_sandbox()
+    echo = bool(h.get('echo_to_console'))
+    if echo:
+        # the instructor lets print() show on the real console as well (allow_function('print')): what is captured is unchanged
+        sandbox.allow_function('print')
+        ctx.count('histories_with_console_echo')
     m = Model()
     n_exec = 0
     silent = 0
@@ -322,7 +334,7 @@ def check_history(ctx, h):
             if isinstance(q, list) and q != m.queue:
                 ctx.violation('C15|input-queue|after-%s' % kind, where, 'expected %r got %r' % (m.queue, q))
                 return
-            if real_out.getvalue():
+            if real_out.getvalue() and not echo:
                 ctx.violation('C15|leaked-to-real-stdout|%s' % kind, where, real_out.getvalue()[:200])
                 return
     finally:
